@@ -32,7 +32,7 @@ NoneK(k) == [k |-> k, s |-> NoStrategyS]
 Other == St(1, "one", "none", B1)
 CE == {<<"one", "none">>, <<"none", "one">>, <<"several", "several">>, <<"empty", "empty">>, <<"none", "none">>, <<"one", "one">>}
 Sources(S) == {<<S, NoneK("unset")>>, <<NoneK("none"), S>>, <<Other, S>>, <<S, NoneK("none")>>, <<NoneK("none"), NoneK("unset")>>}
-C(kd, rq, cl, pr, tr, cm) == [kind |-> kd, req |-> rq, client |-> cl, perreq |-> pr, tracers |-> tr, ctxmode |-> cm, rounds |-> 1]
+C(kd, rq, cl, pr, tr, cm) == [kind |-> kd, req |-> rq, client |-> cl, perreq |-> pr, perreq2 |-> pr, tracers |-> tr, ctxmode |-> cm, rounds |-> 1]
 R2(c) == [c EXCEPT !.rounds = 2]
 Kinds2 == {"sync", "async"}
 Reqs == {"single", "batch", "notification"}
@@ -47,6 +47,9 @@ InitC09(maxn) ==
     \/ \E kd \in Kinds2, rq \in {"single"}, n \in 1..(IF maxn > 2 THEN 2 ELSE 1), bo \in {B1, B9} :
           \/ InitWith(R2(C(kd, rq, St(n, "one", "one", bo), NoneK("unset"), 0, "default")))
           \/ InitWith(R2(C(kd, rq, NoneK("none"), St(n, "one", "one", bo), 0, "default")))
+          \* the second request brings another per-request strategy: the same backoff and codes, but other exception types / none
+          \/ \E e2 \in {"none", "several"} :
+                InitWith([R2(C(kd, rq, NoneK("none"), St(n, "one", "one", bo), 0, "default")) EXCEPT !.perreq2 = St(n, "one", e2, bo)])
 \* C19: tracers x context mode x all outcomes in the sequences the strategies permit
 InitC19(maxn) ==
     \E kd \in Kinds2, rq \in Reqs, n \in 0..maxn, tr \in 0..3, cm \in {"caller", "default"} :
